@@ -249,6 +249,43 @@ def croo_all(ctx):
     ctx.sample(sub, {"words": "all binary words", "orders": "all permutations for length <= 6; identity, reversal, rotations, interleave for longer"})
 
 
+def croo_long(ctx):
+    """Cubes with long time axes: every pixel = (length r of the run that ends at the latest step, an isolated 1
+    exactly d steps before the latest step, beyond the run); all combinations sit in ONE cube, so what one pixel
+    needs (a long walk back) cannot leak into its neighbours.  Stored chronologically, reversed and rotated."""
+    sub = "croo_long"
+    for n in (257, 300, 513, 1000):
+        rs = [r for r in (0, 1, 2, 3, 127, 128, 129, 255, 256, 257, 300, 511, 512, 513, 999, n) if r <= n]
+        ds = [None, "r+1", 64, 128, 255, 256, 257, 384, 511, 512, 513, 768]
+        rows, tags = [], []
+        for r in sorted(set(rs)):
+            for d in ds:
+                dd = r + 1 if d == "r+1" else d
+                x = np.zeros(n, dtype="uint8")
+                if r:
+                    x[n - r:] = 1
+                if dd is not None:
+                    if dd <= r or dd >= n:
+                        continue
+                    x[n - 1 - dd] = 1
+                rows.append(x)
+                tags.append((r, dd))
+        w = np.array(rows)
+        cr, best = ref_runs(w)
+        for name, order in (("chronological", tuple(range(n))), ("reversed", tuple(range(n - 1, -1, -1))), ("rotated", tuple(np.roll(np.arange(n), 101)))):
+            for backend in ("numpy", "dask"):
+                if backend == "dask" and name != "rotated":
+                    continue
+                da = _mkda(w, order=order, chunks={"time": -1, "y": 7} if backend == "dask" else None)
+                got = np.asarray(da.hdc.algo.croo().values).reshape(-1).astype(np.int64)
+                ctx.count(sub, evaluations=len(w), states=len(w), transitions=len(w), traces_validated_against_impl=len(w), nontrivial=int((cr > 0).sum()))
+                for j in np.nonzero(got != cr)[0][:3]:
+                    ctx.violation(sub, {"n": n, "run": tags[j][0], "extra_one_at": tags[j][1], "stored": name, "backend": backend}, {"kind": "croo_long"},
+                                  f"croo on a cube of {len(w)} pixels x {n} steps ({name} storage, {backend}): the pixel whose current run has length {tags[j][0]}"
+                                  f"{'' if tags[j][1] is None else ' and which has an isolated 1 ' + str(tags[j][1]) + ' steps before the latest step'} -> {int(got[j])}, expected {int(cr[j])}")
+    ctx.sample(sub, {"lengths": [257, 300, 513, 1000], "runs": "0..3, 127..129, 255..257, 300, 511..513, 999, n", "isolated_one_steps_back": [64, 128, 255, 256, 257, 384, 511, 512, 513, 768]})
+
+
 def croo_sequences(ctx):
     """Operation sequences on ONE object: croo(), relabel the time axis in place, croo() again ... - every result
     must be the one for the labels the object carries at that moment (no remembered ordering)."""
@@ -289,6 +326,7 @@ def run(ctx):
     nonbinary(ctx)
     accessor_lroo(ctx)
     croo_all(ctx)
+    croo_long(ctx)
     croo_sequences(ctx)
 
 
@@ -299,6 +337,8 @@ def replay(sub, case, p):
         check_lroo(w, p, sub)
     elif k == "croo_seq":
         croo_sequences(p)
+    elif k == "croo_long":
+        croo_long(p)
     elif k == "croo":
         check_croo(np.asarray([case["word"]], dtype="uint8"), tuple(case["order"]), p, sub, case.get("backend", "numpy"))
     else:
